@@ -508,35 +508,6 @@ def _siblings(ck, repo):
               detail=f"got {sorted(got)}, want {want}" + atoms.note())
     from .c13 import directive_tables
     directive_tables(ck, repo)
-    # ---- directives coercers: coercer first, hooks only on success
-    for rel, name in ((LIT + "directives_coercer.py", "literal_directives_coercer"), ("tartiflette/coercers/inputs/directives_coercer.py", "input_directives_coercer")):
-        f = repo.func(rel, name)
-        fv = FuncView(f)
-        cc = [c for c in fv.calls() if isinstance(c.func, ast.Name) and c.func.id == "coercer"]
-        dc = [c for c in fv.calls() if isinstance(c.func, ast.Name) and c.func.id == "directives"]
-        ok = len(cc) == 1 and len(dc) == 1 and fv.dominated_by(dc[0], fv.stmt_of(cc[0]))
-        ck.ob(f"{name}: the coercer runs before the hooks", ok, f, dc[0] if dc else f.node, construct=f"{name}:order")
-        if cc:
-            pp = f.positional_params
-            if name == "literal_directives_coercer":
-                want_args, want_kw = [pp[0], pp[1], pp[2]], {"variables": "variables", "path": "path", "is_non_null_type": "is_non_null_type"}
-            else:
-                want_args, want_kw = [pp[0], pp[1], pp[2], pp[3]], {"path": "path"}
-            got_kw = {k: unparse(v) for k, v in kwargs(cc[0]).items()}
-            ck.ob(f"{name}: forwards all of its operands to the wrapped coercer ({', '.join(want_args + sorted(want_kw))})", [unparse(a) for a in cc[0].args] == want_args and got_kw == want_kw
-                  and fv.is_awaited(cc[0]), f, cc[0], construct=f"{name}:forwards",
-                  detail="dropping `is_non_null_type` silently disables the null-in-non-null check for variables nested in literals" if name.startswith("literal") else None)
-        rets = fv.returns()
-        shapes = sorted({("coercion_result" if unparse(r.value) == "coercion_result" else ("hooked" if unparse(r.value).startswith("CoercionResult(value=await directives(") else
-                                                                                            ("hook-error" if unparse(r.value).startswith("CoercionResult(errors=[graphql_error_from_nodes(") else "other")))
-                         for r in rets})
-        ck.ob(f"{name}: every exit hands back the coercion result, the hooked value or the hooks' failure as an error result", shapes == ["coercion_result", "hook-error", "hooked"] and
-              not any(r.value is None for r in rets), f, f.node, construct=f"{name}:return-shapes", detail=str(shapes))
-        if dc:
-            ok = fv.guarded(dc[0], lambda t: t == "errors", "F") and fv.guarded(dc[0], lambda t: t == "directives", "T")
-            ck.ob(f"{name}: hooks run only on a successful coercion", ok, f, dc[0], construct=f"{name}:on-success")
-            ok = [unparse(a) for a in dc[0].args][:3] == [f.positional_params[0], "value", "ctx"] and fv.in_broad_try(dc[0]) is not None
-            ck.ob(f"{name}: hooks get (parent node, coerced value, ctx) and their failures become error results", ok, f, dc[0], construct=f"{name}:hook-operands")
 
 
 def _null_and_variable(ck, repo):
